@@ -165,11 +165,62 @@ theorem implTagPath_sound (b : List Byte) (hne : b ≠ []) (hb : b.length < 2 ^ 
         exact ⟨nu, ty, n', rfl, hle, h2.1.symm, h2.2.symm, rfl⟩
       · simp [hle] at h2
 
+
+/-! ### impl.Validate's varint-skip ladder (does not call ConsumeVarint) -/
+
+/-- The ten-way `switch` pair of validate.go skips exactly the bytes `protowire.ConsumeVarint`
+would consume, and fails exactly when `ConsumeVarint` reports an error (n < 0; Validate does not
+distinguish truncated from overflow).  It never panics. -/
+theorem implValidateSkipVarint_eq_consumeVarint (b : List Byte) (hb : b.length < 2 ^ 63) :
+    implValidateSkipVarint b =
+      (consumeVarint b).bind fun (_, n) =>
+        if BitVec.slt n 0#64 then some ([], false)
+        else (Go.slice b (some n) none).bind fun rest => some (rest, true) :=
+  ImplFast.skip_eq_slow b hb
+
+theorem implValidateSkipVarint_spec (b : List Byte) (hb : b.length < 2 ^ 63) :
+    implValidateSkipVarint b = some (match Spec.decVarint b with
+      | .ok (_, n) => (b.drop n, true)
+      | .error _ => ([], false)) := by
+  rw [ImplFast.skip_eq_slow b hb, ImplFast.slowSkip_spec b hb]; rfl
+
+/-- Validate and the table-driven unmarshal agree on varint values at the leaf: the ladder
+advances by the `n` that the `v, n` fast path of the consume* functions returns, and fails iff
+that `n` is negative. -/
+theorem implValidateSkipVarint_eq_implFastVarint (b : List Byte) (hb : b.length < 2 ^ 63) :
+    implValidateSkipVarint b =
+      (implFastVarint b).bind fun (_, n) =>
+        if BitVec.slt n 0#64 then some ([], false)
+        else (Go.slice b (some n) none).bind fun rest => some (rest, true) := by
+  rw [implFastVarint_eq_consumeVarint]; exact ImplFast.skip_eq_slow b hb
+
+/-- The tenth byte: after nine continuation bytes the ladder accepts exactly the bytes 0 and 1
+(`b[9] < 0x80 && b[9] < 2` in the long branch is `b[9] < 2`; the `len(b) > 9` clause of the short
+branch is dead code) — the same as ConsumeVarint's `y < 2` overflow check; anything else,
+including a tenth continuation byte, is a failure. -/
+theorem implValidateSkipVarint_tenth (p : List Byte) (hp9 : p.length = 9)
+    (hp : ∀ x ∈ p, ¬ x.toNat < 128) (x9 : Byte) (r : List Byte)
+    (hb : (p ++ x9 :: r).length < 2 ^ 63) :
+    implValidateSkipVarint (p ++ x9 :: r) = some (if x9.toNat < 2 then (r, true) else ([], false)) := by
+  rw [ImplFast.skip_eq_aux _ hb, ImplFast.skipAux_cont p hp (x9 :: r) 0 (by omega)]
+  simp only [Nat.zero_add, hp9, ImplFast.skipAux, ge_iff_le, Nat.le_refl, ↓reduceIte]
+
+/-! ### encoder side -/
+
+/-- Scanner fact (gen-implfast/encoders.go): internal/impl, internal/encoding/messageset,
+encoding/protodelim and proto contain NO re-implementation of varint size / varint append (no
+`bits.Len`-style size formula, no `|0x80` continuation bit, no `>>7` shift ladder, no `1<<14…`
+size ladder, no sizeVarint/appendVarint-named function): every varint, tag and length prefix is
+produced by encoding/protowire (C01/C02).  Breaks as soon as one appears. -/
+theorem noInlinedVarintEncoders : Gen.ImplFast.inlinedVarintEncoders = [] := rfl
+
 /-! ### the hypotheses are satisfiable by non-trivial values -/
 
 example : implFastVarint [0x96, 0x01, 0xff] = some (150#64, 2#64) := by decide
 example : implFastTag [0x0a, 0x03] = some (10#64, [0x03], true) := by decide
 example : implTagSplit 10#64 = (1#32, 2#8, true) := by decide
 example : Spec.decTag [0x0a, 0x03] = .ok (1, 2, 1) := by rfl
+example : implValidateSkipVarint [0x96, 0x01, 0x07] = some ([0x07], true) := by decide
+example : implValidateSkipVarint [0xff, 0xff, 0xff, 0xff, 0xff, 0xff, 0xff, 0xff, 0xff, 0x02] = some ([], false) := by decide
 
 end C06
